@@ -27,7 +27,7 @@ func init() { core.Register(c20{}) }
 
 func (c20) ID() string { return "C20" }
 func (c20) Rule() string {
-	return "plans: <= 6 operations over 2 plugin names: install (version from a semver-ordered set incl. pre-release, build metadata, 1.10 vs 1.2, and invalid ones; overwrite flag; source = executable | directory; executable or non-executable candidate; extra files sorting before and after the candidate; sub-directory with files, one shadowing a top-level name; second candidate; valid / misnamed / invalid / non-JSON metadata), uninstall, get, list; 20% of runs inject one ENOSPC/EIO into a copy. non-trivial: an install was decided against an already installed plugin, or used a directory source with extras; distinct: hash of the (op, arguments, verdict) sequence"
+	return "plans: <= 6 operations over 2 plugin names: install (version from a semver-ordered set incl. pre-release, build metadata, 1.10 vs 1.2, and invalid ones; overwrite flag; source = executable | directory; executable or non-executable candidate; extra files sorting before and after the candidate; sub-directory with files, one shadowing a top-level name; second candidate; valid / misnamed / invalid / non-JSON metadata), uninstall, get, list; 20% of runs inject one ENOSPC/EIO into a copy. The user process can be killed at a file-system step (crash before / after the step); a supervisor starts a new process that goes on with the next operation. A clean successful install after a faulted or killed one is judged against the statement's sentence about the result of a successful installation. Source directories may contain a sub-directory named like the source directory itself, holding a complete plugin of its own. non-trivial: an install was decided against an already installed plugin, or used a directory source with extras; distinct: hash of the (op, arguments, verdict) sequence"
 }
 func (c20) Components() map[string]string {
 	return map[string]string{
